@@ -15,6 +15,19 @@ INST = {
 SUBSVC = ["s1", "s2", "s3", "s4"]
 
 
+def many_instances(n):
+    """further instances M0 .. M<n-1>, each its own service (scale scenarios: more entries than one datagram should carry)"""
+    names = []
+    for i in range(n):
+        svc, inst = "m%d" % i, "M%d" % i
+        if svc not in sdenv.SVC:
+            sdenv.SVC[svc] = (0x4000 + i, 1, 1, 0)
+            sdenv.RSVC[sdenv.SVC[svc]] = svc
+        INST.setdefault(inst, (svc, [1]))
+        names.append(inst)
+    return names
+
+
 def tcfg(**kw):
     """timing configuration in integer ticks"""
     base = dict(initMin=0, initMax=0, reps=0, base=1, cyclic=4, annTTL=12, collect=0, rrMin=0, rrMax=0)
@@ -43,7 +56,7 @@ def find_table(insts):
 def mon_cfg(tc, insts, ann0=()):
     c = dict(tc)
     c.update(insts=list(insts), inst=inst_table(insts), findMatch=find_table(insts),
-             ann0=list(ann0), peers=["a1", "a2", "a3"])
+             ann0=list(ann0), peers=["a1", "a2", "a3", "a4", "a5"])
     return c
 
 
